@@ -94,7 +94,10 @@ def grids_differ(a, b, tol, keys=("mult", "nx", "lower", "upper", "width", "per"
             if list(x) != list(y):
                 return "%s: %s vs %s" % (k, x, y)
         else:
-            if len(x) != len(y) or any(not close(u, v, tol) for u, v in zip(x, y)):
+            # sums of rounded decimal values (add = true): the error is relative to the operands, not to the sum
+            sc = b.get("_scale", {}).get(k) if isinstance(b, dict) else None
+            if len(x) != len(y) or any(not (close(u, v, tol) or (sc is not None and abs(u - v) <= tol * sc[i_]))
+                                       for i_, (u, v) in enumerate(zip(x, y))):
                 return "%s: %s vs %s" % (k, x[:8], y[:8])
     return None
 
@@ -199,6 +202,10 @@ def mutate_text(r, text, kind):
     if kind == "drop":
         if new[i][j] in KEYS[1:]:
             return None        # a missing keyword is legal: the current value is kept
+        hdr_lines = [q for q, l in enumerate(lines) if l and l[0] == "#"]
+        if hdr_lines and i == hdr_lines[-1] and j > 0 and len(hdr_lines) > 1:
+            return None        # the fields of the last header line shift and its last integer is then extracted from the
+                               # first bin centre ("3.1875e+00" read as 3): not expressible with whole tokens
         if INT_RE.match(new[i][j]):
             q = k + 1
             while q < len(pos) and INT_RE.match(lines[pos[q][0]][pos[q][1]]):
@@ -360,6 +367,8 @@ def expected_after_read(c):
                 "data": g["data"]}
     e = dict(g0)
     e["data"] = [a + b for a, b in zip(g0["data"], g["data"])] if c.get("add") else list(g["data"])
+    if c.get("add"):
+        e["_scale"] = {"data": [max(abs(a), abs(b)) for a, b in zip(g0["data"], g["data"])]}
     return e
 
 
